@@ -29,6 +29,7 @@ def parseLabel? (tok : String) : Option (Nat × Label) :=
   | [t, "cl"] => t.toNat?.map (·, Label.cl)
   | [t, "qset"] => t.toNat?.map (·, Label.qset)
   | [t, "cancel"] => t.toNat?.map (·, Label.cancel)
+  | [t, "ccancel"] => t.toNat?.map (·, Label.ccancel)
   | _ => none
 
 def parseLabels? (s : String) : Option (List (Nat × Label)) :=
